@@ -348,6 +348,7 @@ func (x *Exec) goStmt(n *ast.GoStmt, st *St, fr *Frame, k func(*St)) {
 		x.eval(lit, st, fr, func(st *St, _ *Val) {
 			x.assertWF(st, "go#"+key, pos)
 			env := &CEnv{X: x, Names: x.localNames(st, fr, nil), St: st, Pkg: x.Fn.Pkg}
+			x.joinEffects(x.W.CS.ByKey[key], env, st, n.Pos())
 			x.spawnEffects(x.W.CS.ByKey[key], env, st, n.Pos())
 			st.note("go: goroutine %s started at %s", key, pos)
 			k(st)
@@ -421,7 +422,29 @@ func (x *Exec) spawnChecks(call *ast.CallExpr, c *Contract, obj *types.Func, fi 
 		}
 	})
 	x.assertWF(st, "go#"+c.Key, pos)
+	x.joinEffects(c, env, st, call.Pos())
 	x.spawnEffects(c, env, st, call.Pos())
+}
+
+// joinEffects: a goroutine that "joins wg" has been started: it uses up one announcement (wg.Add) of the spawner.
+func (x *Exec) joinEffects(c *Contract, env *CEnv, st *St, p token.Pos) {
+	if len(c.Joins) == 0 {
+		return
+	}
+	f := x.W.Fields["sync.WaitGroup.spawned"]
+	if f == nil {
+		oos("joins clause of %s: the trusted model of sync.WaitGroup is not loaded", c.Key)
+	}
+	x.wrapCfail("joins of "+c.Key, func() {
+		for _, j := range c.Joins {
+			r := env.tr(j.Expr).T
+			x.checkWrite(st, f.Key, r, p)
+			old := st.field(f)
+			nw := x.fresh(f.Key, old.Sort)
+			x.assume(st, Eq(nw, Store(old, r, Arith("+", Select(old, r), IntLit(1)))))
+			st.heap[f.Key] = nw
+		}
+	})
 }
 
 // checkCarries: every channel argument carries the protocol (and subjects) the callee's contract declares for it.
